@@ -263,7 +263,7 @@ Proof. destruct it as [| | |mn insts|]; try done. intros Hb H. destruct (Hb mn i
 Theorem roundtrip_equiv_bbfree C beh π m rsv bbs : rte_clean (c_g C) → c_bbs C = ∅ → write C beh π = Ok m →
   (list_to_set (module_ids m) : gset string) ⊆ rsv →
   ∃ C', read rsv bbs m = Ok C' ∧ c_name C' = c_name C ∧ inputs (c_g C') = inputs (c_g C) ∧ outputs (c_g C') = outputs (c_g C) ∧
-        c_bbs C' = ∅ ∧ equiv_on (outputs (c_g C)) (c_g C) (c_g C').
+        c_bbs C' = ∅ ∧ equiv_on (dom (c_g C)) (c_g C) (c_g C').
 Proof.
   intros [Hty Hzero Hgate Hsingle Hnames Hcl] Hb Hw Hids.
   destruct (write_invb C beh π m Hw Hb) as (Ni & Ei & No & Eo & Nn & En & Ef & Ff & Em).
@@ -348,9 +348,25 @@ Proof.
     assert (Hnd2 : NoDup (xdrivers bbs m).*1) by (by rewrite Exd). destruct (read_conv_items rsv bbs m C' _ HNN Hden2 Hconv Hnd2 HC' v false) as (w & Cw & Aw).
     { intros n d Hin. rewrite Edr in Hin. destruct (F3 _ _ Hin) as (i & Hi & Hg & Hsem). rewrite Hsem.
       apply node_ok_val; [done|by apply (Hgate n i Hi)|by apply Hv]. }
-    exists w. split; [done|]. intros n Hn. apply Aw. apply elem_of_list_to_set. 
-    apply elem_of_outputs in Hn as (i & Hi & Ho). unfold module_nets. apply elem_of_app. left. rewrite Em. cbn [m_ports]. apply elem_of_app. right.
-    apply (elem_of_list_to_set (C:=gset string)). rewrite Eo. apply elem_of_outputs. eauto.
+    exists w. split; [done|]. intros n Hn. apply Aw. apply elem_of_list_to_set.
+    apply elem_of_dom in Hn as [i Hi]. unfold module_nets. destruct (Hty n i Hi) as [E|Hg].
+    + apply elem_of_app. left. rewrite Em. cbn [m_ports]. apply elem_of_app. left.
+      apply (elem_of_list_to_set (C:=gset string)). rewrite Ei. apply elem_of_inputs. eauto.
+    + apply elem_of_app. right. rewrite Eitems. apply elem_of_list_bind. exists (IWire [n]). split; [simpl; by left|].
+      apply elem_of_app. right. apply elem_of_app. right. apply elem_of_app. left. apply elem_of_list_fmap. exists n. split; [done|]. apply Hgc. eauto.
+Qed.
+
+Lemma equiv_on_mono (S S' : gset string) c c' : S' ⊆ S → equiv_on S c c' → equiv_on S' c c'.
+Proof.
+  intros Hs [H1 H2]. split; intros v Hv; [destruct (H1 v Hv) as (w & Cw & Aw)|destruct (H2 v Hv) as (w & Cw & Aw)]; exists w; (split; [done|]); intros n Hn; apply Aw; by apply Hs.
+Qed.
+Corollary roundtrip_equiv_bbfree_outputs C beh π m rsv bbs : rte_clean (c_g C) → c_bbs C = ∅ → write C beh π = Ok m →
+  (list_to_set (module_ids m) : gset string) ⊆ rsv →
+  ∃ C', read rsv bbs m = Ok C' ∧ c_name C' = c_name C ∧ inputs (c_g C') = inputs (c_g C) ∧ outputs (c_g C') = outputs (c_g C) ∧
+        c_bbs C' = ∅ ∧ equiv_on (outputs (c_g C)) (c_g C) (c_g C').
+Proof.
+  intros Hc Hb Hw Hids. destruct (roundtrip_equiv_bbfree C beh π m rsv bbs Hc Hb Hw Hids) as (C' & H1 & H2 & H3 & H4 & H5 & H6).
+  exists C'. repeat (split; [done|]). eapply equiv_on_mono; [|exact H6]. intros n (i & Hi & _)%elem_of_outputs. apply elem_of_dom; eauto.
 Qed.
 
 
